@@ -53,6 +53,7 @@ def classify(ctx: HandlerContext) -> Classification:
 
     # Find where the inner command starts
     i = 1
+    kept: list[str] = []  # assignments that decide what the inner command runs
     while i < len(tokens):
         token = tokens[i]
 
@@ -102,11 +103,11 @@ def classify(ctx: HandlerContext) -> Classification:
             i += 1
             continue
 
-        # Skip VAR=value assignments
+        # Skip VAR=value assignments, except those that decide what the command
+        # runs (PATH, LD_PRELOAD, ...): they stay in front of the inner command
         if "=" in token and not token.startswith("-"):
-            name = sets_execution_var(token)
-            if name:
-                return Classification("ask", description=f"env sets {name}")
+            if sets_execution_var(token):
+                kept.append(token)
             i += 1
             continue
 
@@ -116,6 +117,6 @@ def classify(ctx: HandlerContext) -> Classification:
         return Classification("allow")  # Just env with no command
 
     # Delegate to inner command check
-    inner_tokens = tokens[i:]
+    inner_tokens = kept + tokens[i:]
     inner_cmd = bash_join(inner_tokens)
     return Classification("delegate", inner_command=inner_cmd)
